@@ -136,6 +136,9 @@ def check(ctx, replay=None):
                     if backend == "kotlin" and nm.startswith("resse_"):
                         continue          # Kotlin wants an `error` attribute on struct error types (recorded C15 finding)
                     methods.append({"name": nm, "self": selfk, "params": ps, "ret": rt, "write": False, "rets": [mod.rand_value(rt) for _ in range(3)]})
+            # a result whose arms both carry nothing
+            methods.append({"name": "ruu", "self": "ref", "params": [("a", ("prim", "u8"))], "ret": ("res", ("unit",), ("unit",)), "write": False,
+                            "rets": [mod.rand_value(("res", ("unit",), ("unit",))) for _ in range(3)]})
             # every primitive as the payload of an optional / fallible return and as a plain return (record shapes per primitive)
             for pn in abigen.PRIMS:
                 if pn in ("i128", "u128"):
@@ -154,6 +157,17 @@ def check(ctx, replay=None):
                 violate(f"tool:{backend}", {"what": f"diplomat-tool {backend} rejects a bridge inside its own profile: {q.stderr[-500:]}", "lib_rs": src[:3000]}); continue
             qc = e2e.run_tool("c", path, os.path.join(d, "out_c"))
             protos = abi_run.parse_header(os.path.join(d, "out_c", "Op.h"))[0] if qc.returncode == 0 else {}
+            if backend == "kotlin":
+                # a JNA Structure member must have a size: a Union class without fields listed as a member is refused at run time
+                # ("Invalid Structure field ... has unknown or zero size"), while the C record of a payload-less result is the flag alone
+                for root, _, fs in os.walk(out):
+                    for f in fs:
+                        if f.endswith(".kt"):
+                            ktxt = open(os.path.join(root, f)).read()
+                            for um in re.finditer(r"class (\w+)Union: Union\(\) \{\s*\}", ktxt):
+                                if re.search(r"var union: %sUnion\b" % um.group(1), ktxt):
+                                    violate("direct:kotlin-empty-union", {"record": um.group(1), "what": f"the JNA record {um.group(1)} of a result whose arms carry no payload has a member "
+                                            f"`union` of the field-less class {um.group(1)}Union: the C type is {{ bool is_ok }}; JNA refuses a Structure field of zero size", "lib_rs": src[:2500]})
             P = Parser(out)
             env = env_term(mod)
             agree = "agree_dart_sig" if backend == "dart" else "agree_kotlin_sig"
